@@ -409,6 +409,12 @@ func CheckC16(run *ev.Run) {
 		for i := 0; i < 6; i++ {
 			name := fmt.Sprintf("Model%c", 'A'+i)
 			t := genStruct(r, 3, models)
+			if i == 0 {
+				// members NAMED like json tag options (the name is element 0 of the tag, not an option)
+				t.Fields = append(t.Fields,
+					gfield{Go: "S0", JSON: "string", Ty: &gty{K: "basic", Kind: "int", GoName: "int64"}},
+					gfield{Go: "S1", JSON: "omitempty", Ty: &gty{K: "ptr", Elem: &gty{K: "basic", Kind: "float", GoName: "float64"}}})
+			}
 			switch i { // every package has each kind of embedding once
 			case 1:
 				t.Embeds = []string{"timestamps"}
